@@ -181,10 +181,12 @@ func (iv *Value) ValueFrom(value any) {
 		case reflect.Bool:
 			iv.ItemType = ItemTypeBoolean
 			iv.ItemValue = strconv.FormatBool(rv.Bool())
-		case reflect.Int, reflect.Int8, reflect.Int16, reflect.Int32, reflect.Int64,
-			reflect.Uint, reflect.Uint8, reflect.Uint16, reflect.Uint32, reflect.Uint64:
+		case reflect.Int, reflect.Int8, reflect.Int16, reflect.Int32, reflect.Int64:
 			iv.ItemType = ItemTypeInteger
 			iv.ItemValue = fmt.Sprintf("%v", rv.Int())
+		case reflect.Uint, reflect.Uint8, reflect.Uint16, reflect.Uint32, reflect.Uint64:
+			iv.ItemType = ItemTypeInteger
+			iv.ItemValue = fmt.Sprintf("%v", rv.Uint())
 		case reflect.Float32, reflect.Float64:
 			iv.ItemType = ItemTypeFloat
 			iv.ItemValue = fmt.Sprintf("%v", rv.Float())
